@@ -34,23 +34,29 @@ ASSUMPTIONS = [
 ]
 REACH = {"quick": {"editing-calls": 3000, "deepcopy-cuts": 1000, "warn-once-second-use-silent": 1000, "branching-histories": 500, "forbidden-silent-checked": 5000,
                    "edit:left_join": 100, "edit:inner_join": 100, "edit:rename": 100, "edit:select": 100, "edit:unselect": 100, "edit:fill_missing_keys": 100,
-                   "edit:modify": 100, "edit:modify_if": 100}}
+                   "edit:modify": 100, "edit:modify_if": 100, "edit:fill_missing_keys_noarg": 50}}
 
 WARNING = "Warning: A successor has modified the shared dicts"
 HANDON = ["filter", "filter_out", "sort", "unique", "head", "tail", "slice", "copy", "reverse", "sample", "semi_join", "anti_join", "drop_na",
           "append", "extend", "add", "mul", "chain", "chain"]
-EDIT = ["modify", "modify_if", "rename", "select", "unselect", "fill_missing_keys", "inner_join", "left_join"]
+EDIT = ["modify", "modify_if", "rename", "select", "unselect", "fill_missing_keys", "fill_missing_keys_noarg", "inner_join", "left_join"]
 
 def generate(rng, tier):
     return {"hseed": rng.getrandbits(48), "nsteps": rng.randint(5, 25), "nroots": rng.choice([1, 1, 2])}
 
 class Node:
+    _trees = [0]
     def __init__(self, lst, parent=None, cut=False, how="root"):
         self.lst = lst
         self.parent = None if cut else parent
         self.obsolete = False
         self.warned = False
         self.how = how
+        if parent is None or cut:
+            Node._trees[0] += 1
+            self.tree = Node._trees[0]      # lists of different trees share no items: an edit in one tree must never show in another
+        else:
+            self.tree = parent.tree
 
 def _items(lst):
     return list(list.__iter__(lst))
@@ -71,6 +77,9 @@ def execute(case):
         for i in range(n):
             counter[0] += 1
             out.append({"_tag_": counter[0], "k": rng.choice([1, 2, None]), "s": rng.choice(["x", "y"]), "nest": {"l": [1, 2], "d": {"z": counter[0]}}, "lst": [counter[0]]})
+        for it in out:
+            if rng.random() < 0.25:
+                del it["s"]
         if out and rng.random() < 0.5:
             # heterogeneous, JSON-like data: a flat first item (optional nested values absent), nested values further down
             out[0]["nest"] = None
@@ -101,7 +110,7 @@ def execute(case):
         if r < 0.15:
             op = "use"
         elif r < 0.27:
-            op = "deepcopy"
+            op = rng.choice(["deepcopy", "deepcopy", "construct"])
         elif r < 0.62:
             op = rng.choice(HANDON)
         else:
@@ -119,6 +128,7 @@ def execute(case):
                 live[id(it)] = it
         snap = {i: _content(it) for i, it in live.items()}
         recv_ids = {id(it) for it in _items(lst)}
+        tree_snap = {id(nd): [_content(it) for it in _items(nd.lst)] for nd in nodes if nd.tree != node.tree}
         try:
             with capture_stdout() as buf:
                 if op == "use": out = None; lst.pluck("_tag_")
@@ -147,6 +157,14 @@ def execute(case):
                 elif op == "select": out = lst.select("_tag_", "k", "nest", "lst")
                 elif op == "unselect": out = lst.unselect("s", "q")
                 elif op == "fill_missing_keys": out = lst.fill_missing_keys(filled=0, s="filled")
+                elif op == "fill_missing_keys_noarg":
+                    # the documented no-argument form fills every key missing from some item with None, in place
+                    its = _items(lst)
+                    if its and not all(set(a) == set(its[0]) for a in its):
+                        out = lst.fill_missing_keys()
+                    else:
+                        op = "use"; out = None; lst.pluck("_tag_")
+                elif op == "construct": out = di.ListOfDicts(_items(lst))
                 elif op in ("inner_join", "left_join"):
                     if all("k" in x for x in _items(lst)):
                         out = getattr(lst, op)(other, "k")
@@ -162,6 +180,8 @@ def execute(case):
         trace.append(op)
         nwarn = len([l for l in printed.splitlines() if l.strip()])     # any printed line counts as the warning (wording may change)
         expect = 1 if (node.obsolete and not node.warned) else 0
+        if op == "construct":
+            expect = 0        # the constructor is handed the items, no method of the source list is used
         if nwarn != expect:
             if expect == 1:
                 key = f"obsolete-list-did-not-warn:{node.how}"
@@ -171,7 +191,9 @@ def execute(case):
                 key = f"non-obsolete-list-warned:{node.how}"
             res.violate(key, f"step {step}: {op} on a list (created by {node.how}, model obsolete={node.obsolete} warned={node.warned}) printed the warning {nwarn}x, expected {expect}x; trace {trace}")
             return res.dict()
-        if expect:
+        if op == "construct":
+            pass
+        elif expect:
             node.warned = True
             res.count("warned-on-first-use")
         elif node.obsolete:
@@ -191,6 +213,10 @@ def execute(case):
             return res.dict()
         if other is not None:
             pass
+        for nd in nodes:
+            if id(nd) in tree_snap and [_content(it) for it in _items(nd.lst)] != tree_snap[id(nd)]:
+                res.violate(f"{op}:changed-list-of-another-tree:{nd.how}", f"step {step}: {op} on a list of tree {node.tree} changed the contents of a list of tree {nd.tree} (created by {nd.how}): lists built by deepcopy or by the constructor are independent; trace {trace}")
+                return res.dict()
         res.count("item-snapshots-compared", len(live))
         # ---- shadow forest update
         if op in EDIT:
@@ -220,7 +246,7 @@ def execute(case):
                     if shared:
                         res.violate("deepcopy:shares-objects-with-original", f"step {step}: deepcopy returned items (or nested containers) that are the same objects as the original's; trace {trace}")
                         return res.dict()
-            new = Node(out, parent=node, cut=(op == "deepcopy"), how=op)
+            new = Node(out, parent=node, cut=(op in ("deepcopy", "construct")), how=op)
             children[id(node)] = children.get(id(node), 0) + 1
             if children[id(node)] == 2:
                 branches += 1
